@@ -90,6 +90,11 @@ func genC05(w *simrt.Choices, tier string, avoid map[string]bool) Case {
 	if w.Choose(12) == 0 {
 		p.RejectOrigin = append(p.RejectOrigin, c05Patterns[6+w.Choose(2)])
 	}
+	if w.Choose(4) == 0 {
+		// a domain that also occurs as a recipient domain: the sender rule and the
+		// recipient rules are separate decisions about the same name
+		p.RejectOrigin = append(p.RejectOrigin, randCase(w, c05Domains[w.Choose(len(c05Domains))]))
+	}
 	p.MaxRecipients = 1 + w.Choose(4)
 	b := func(v bool) string { return strconv.FormatBool(v) }
 	k.Env["INBUCKET_SMTP_DEFAULTACCEPT"] = b(p.DefaultAccept)
@@ -110,6 +115,9 @@ func genC05(w *simrt.Choices, tier string, avoid map[string]bool) Case {
 		tok++
 		t := c05Txn{Token: fmt.Sprintf("tok%d", tok)}
 		t.From = "sender" + strconv.Itoa(i) + "@" + c05OriginDomains[w.Choose(len(c05OriginDomains))]
+		if w.Choose(4) == 0 {
+			t.From = "sender" + strconv.Itoa(i) + "@" + randCase(w, c05Domains[w.Choose(len(c05Domains))])
+		}
 		if w.Choose(10) == 0 {
 			t.From = ""
 		}
@@ -117,6 +125,9 @@ func genC05(w *simrt.Choices, tier string, avoid map[string]bool) Case {
 			d := c05Domains[w.Choose(len(c05Domains))]
 			if w.Choose(6) == 0 {
 				d = []string{"unlisted.test", "alpha.testx", "xalpha.test", "alpha.tes"}[w.Choose(4)]
+			}
+			if w.Choose(8) == 0 {
+				d = c05OriginDomains[w.Choose(len(c05OriginDomains)-1)] // a name that also occurs as a sender domain
 			}
 			t.Rcpts = append(t.Rcpts, fmt.Sprintf("u%d%c@%s", i, 'a'+j, randCase(w, d)))
 		}
